@@ -28,6 +28,7 @@ type c05Desc struct {
 	NoGlob   bool           `json:"noglob"`
 	MTime    int64          `json:"mtime"`
 	Entries  []c05EntryDesc `json:"entries"`
+	Files    []extraFile    `json:"files,omitempty"` // written below the source tree for this case only
 }
 
 func descOfC05(cs c05Case) c05Desc {
@@ -40,11 +41,12 @@ func descOfC05(cs c05Case) c05Desc {
 		}
 		d.Entries = append(d.Entries, ed)
 	}
+	d.Files = cs.files
 	return d
 }
 
 func caseOfC05(id string, d c05Desc) c05Case {
-	cs := c05Case{id: id, umask: fs.FileMode(d.Umask), packager: d.Packager, noGlob: d.NoGlob, mtime: unixOrZero(d.MTime)}
+	cs := c05Case{id: id, umask: fs.FileMode(d.Umask), packager: d.Packager, noGlob: d.NoGlob, mtime: unixOrZero(d.MTime), files: d.Files}
 	for _, ed := range d.Entries {
 		c := &files.Content{Source: ed.Src, Destination: ed.Dst, Type: ed.Type, Packager: ed.Packager}
 		if ed.HasFI {
